@@ -7,5 +7,6 @@ var verifHarnesses = map[string]func(){
 	"VerifC15":            VerifC15,
 	"VerifC15Long":        VerifC15Long,
 	"VerifC17Sio":         VerifC17Sio,
+	"VerifC17SioRestart":  VerifC17SioRestart,
 	"VerifSioOrderLemmas": VerifSioOrderLemmas,
 }
